@@ -50,6 +50,20 @@ func c09Drive(args []string) int {
 		emitVariant("1-byte", &chunkReader{data: in, sizes: []int{1}, failAt: -1}, -1)
 		emitVariant("1-byte+eof-with-data", &chunkReader{data: in, sizes: []int{1}, eofWith: true, failAt: -1}, -1)
 		emitVariant("whole+eof-with-data", &chunkReader{data: in, eofWith: true, failAt: -1}, -1)
+		// a producer that writes line by line, the last line arriving together with io.EOF
+		var lineSizes []int
+		for rest := in; len(rest) > 0; {
+			k := bytes.IndexByte(rest, '\n') + 1
+			if k <= 0 {
+				k = len(rest)
+			}
+			lineSizes = append(lineSizes, k)
+			rest = rest[k:]
+		}
+		if len(lineSizes) > 1 && len(lineSizes) < 4000 {
+			emitVariant("line-by-line+eof-with-last", &chunkReader{data: in, sizes: lineSizes, eofWith: true, failAt: -1}, -1)
+			emitVariant("line-by-line", &chunkReader{data: in, sizes: lineSizes, failAt: -1}, -1)
+		}
 		// every single split point (exhaustive for short inputs, sampled otherwise)
 		var splits []int
 		if len(in) <= maxSplitLen {
